@@ -170,6 +170,20 @@ class Interp:
                         raise AnalysisError(f"{self.name}: {ast.unparse(e)}")
             return sorted(set(outs), key=str)
         if isinstance(e, ast.Call) and isinstance(e.func, ast.Name) \
+                and e.func.id == "getattr" and len(e.args) == 3 \
+                and isinstance(e.args[1], ast.Constant) \
+                and isinstance(e.args[1].value, str):
+            # getattr(X, "a", default): the modelled attribute, or the
+            # default when the attribute is absent; the use of a default is
+            # recorded for writer/reader fall-back agreement
+            t = f"{ast.unparse(e.args[0])}.{e.args[1].value}"
+            if t not in self.attrs:
+                raise AnalysisError(f"{self.name}: attribute {t} is not "
+                                    f"modelled")
+            self.defaults = getattr(self, "defaults", {})
+            self.defaults[t] = self.ev(e.args[2], env)
+            return [self.attrs[t]]
+        if isinstance(e, ast.Call) and isinstance(e.func, ast.Name) \
                 and e.func.id == "len" and len(e.args) == 1:
             return [("LEN", v) for v in self.ev(e.args[0], env)]
         if isinstance(e, ast.BoolOp):
